@@ -1275,6 +1275,12 @@ where
 			NotificationResponse = MethodResponse,
 		> + Send,
 {
+	// JSON text must be UTF-8. `serde_json` doesn't validate strings it skips (unknown members, raw params),
+	// thus a message with invalid bytes in such a place would otherwise be processed or misclassified.
+	if std::str::from_utf8(body).is_err() {
+		return MethodResponse::error(Id::Null, ErrorObject::from(ErrorCode::ParseError));
+	}
+
 	// Single request or notification
 	if is_single {
 		if let Ok(req) = deserialize_with_ext::call::from_slice(body, &extensions) {
